@@ -34,6 +34,8 @@ func c19Alphabet(tier string) []seqSym {
 		sy("SET", "k1", "a", "EX", "100", "POINT", "5", "5"),
 		sy("SET", "k1", "b", "FIELD", "f", "1", "FIELD", "g", "a-longer-string-value", "POINT", "3", "4"),
 		sy("SET", "k2", "a", "OBJECT", gLine),
+		sy("SET", "k3", "x", "XX", "POINT", "1", "1"), // refused: must leave nothing behind
+		sy("SET", "k1", "a", "NX", "POINT", "9", "9"),
 		sy("FSET", "k1", "a", "f", "5"),
 		sy("FSET", "k1", "b", "g", "0"),
 		sy("EXPIRE", "k1", "a", "100"),
